@@ -1,3 +1,4 @@
+import Pds.Proofs.KernelTie.CmsQuery
 import Pds.Proofs.KernelTie.MergeCms
 import Pds.Proofs.KernelTie.HashIter
 import Pds.Proofs.KernelTie.CmsOps
@@ -35,5 +36,13 @@ theorem cms_merge_translated (s o : Cms.St) :
       match Cms.merge s o with
       | none => Flow.panic
       | some s' => Flow.cont s'.table.toList := cms_merge_eq s o
+
+/-- `query_point` as translated (the iterator pipeline `enumerate → i·w + pos → table[x] → min().unwrap()`) on the element's
+columns is the model's `queryCols`: the minimum of the addressed cells; `none` = an index panic or `d = 0` -/
+theorem cms_query_point_translated (s : Cms.St) (cols : List Nat) :
+    cms_query_point s.w s.table.toList cols =
+      match Cms.queryCols s cols with
+      | none => Flow.panic
+      | some v => Flow.ret v := cms_query_point_eq s cols
 
 end Pds.Tie.C02
